@@ -285,3 +285,90 @@ def bpkiEdataEnc (edata salt : List UInt8) (iter : Nat) : R (List UInt8) :=
     .stop 0] [] []
 
 end Bee2V.C08
+
+namespace Bee2V.C08
+
+/-! ### bign_params.c: bignParamsEnc_internal / bignParamsDec_internal -/
+
+def oid_bign_primefield := cstr "1.2.112.0.2.0.34.101.45.4.1"
+
+/-- `if (derUINTDec(0, &len, ptr, count) == SIZE_MAX || len != 32 && len != 48 && len != 64) return SIZE_MAX;
+    params->l = len * 4; derDecStep(derUINTDec(params->p, &len, ptr, count), ptr, count);` -/
+def dUintP : DStep := fun st _ rest =>
+  match derTUINTDec rest 2 with
+  | .ok (v, t) =>
+    if v.length ≠ 32 ∧ v.length ≠ 48 ∧ v.length ≠ 64 then .err
+    else .ok (t, { st with outs := st.outs ++ [v], nums := v.length :: st.nums })
+  | .err => .err
+  | .oob => .oob
+
+/-- derUINTDec2(out, ptr, count, len) with `len` the number remembered last -/
+def dUintLen : DStep := fun st _ rest =>
+  match st.nums with
+  | len :: _ =>
+    match derTUINTDec2 rest 2 len with
+    | .ok (v, t) => .ok (t, { st with outs := st.outs ++ [v] })
+    | .err => .err
+    | .oob => .oob
+  | [] => .err
+
+/-- derDecStep2: an optional element (`if (t != SIZE_MAX) ptr += t, count -= t`) -/
+def dOpt (f : List UInt8 → R Nat) : DStep := fun st _ rest =>
+  match f rest with
+  | .ok t => .ok (t, st)
+  | .err => .ok (0, st)
+  | .oob => .oob
+
+def bitDec2v (len : Nat) : List UInt8 → R (List UInt8 × Nat) := fun r => derTBITDec2 r 3 len
+
+/-- bignParamsDec_internal: outs = [p, a, b, seed, yG, q], nums = [len] -/
+def bignParamsDecSteps : List DStep := [
+  dStart 0 0x30,
+    dPrim (sizeDec2 1),
+    dStart 1 0x30,
+      dPrim (oidDec2 oid_bign_primefield),
+      dUintP,
+    dStop 1,
+    dStart 2 0x30,
+      dOctLen,
+      dOctLen,
+      dOut (bitDec2v 64),
+    dStop 2,
+    dOctLen,
+    dUintLen,
+    dOpt (sizeDec2 1),
+  dStop 0]
+
+def bignParamsDecI (der : List UInt8) : R (Nat × DSt) := runDec der bignParamsDecSteps {} 0
+
+/-- bignParamsDec: the internal decoder must consume the whole input -/
+def bignParamsDec (der : List UInt8) : R DSt :=
+  match bignParamsDecI der with
+  | .ok (c, st) => if c ≠ der.length then .err else .ok st
+  | .err => .err
+  | .oob => .oob
+
+/-- bignIsOperable on the decoded / given fields (no = l / 4 octets each, little-endian) -/
+def bignIsOperable (p a b q : List UInt8) : Bool :=
+  (p.headD 0).toNat % 4 = 3 ∧ (q.headD 0).toNat % 2 = 1 ∧ (p.getLastD 0).toNat ≥ 128 ∧ (q.getLastD 0).toNat ≥ 128 ∧
+  a.any (· ≠ 0) ∧ b.any (· ≠ 0)
+
+/-- bignParamsEnc_internal(der, params): fields of l / 4 octets -/
+def bignParamsEncI (p a b q yG seed : List UInt8) : R (List UInt8) :=
+  runEnc [
+    .start 0 0x30,
+      .bytes (derTSIZEEnc 2 1),
+      .start 1 0x30,
+        .bytes (derOIDEnc oid_bign_primefield),
+        .bytes (derTUINTEnc 2 p),
+      .stop 1,
+      .start 2 0x30,
+        .bytes (derEnc 4 a),
+        .bytes (derEnc 4 b),
+        .bytes (derTBITEnc 3 seed 64),
+      .stop 2,
+      .bytes (derEnc 4 yG),
+      .bytes (derTUINTEnc 2 q),
+    .stop 0] [] []
+
+end Bee2V.C08
